@@ -130,8 +130,36 @@ def run(seed_id, tier, pids):
     return results
 
 
+def sweep(tier, only=None):
+    """Run every kept seed against its own property's check (plus the extra properties listed below where a
+    change is also expected to be caught elsewhere) and write seeded/RESULTS.md."""
+    also = {"C01-A": ["C16"], "C05-A": ["C06"], "C06-A": ["C05"], "C11-B": ["C13"], "C01-B": ["C05"], "C16-A": ["C01"],
+            "C08-A": ["C06"], "C20-B": ["C07"], "C07-B": ["C04"], "C03-B": ["C02"], "C09-B": ["C02"]}
+    lines = ["# Seeded changes vs checks (tier: %s)\n" % tier,
+             "Each change was produced by an independent sub-agent given only the property text, confirmed in a scratch",
+             "worktree of the pinned commit (demo fails with it, passes without, suite passes), then applied to /repo,",
+             "checked and reverted. `patch.rebased.diff` is the same change re-applied on top of the hook/fix commits.\n",
+             "| seed | summary | check | result | wall |", "|---|---|---|---|---|"]
+    for sid in sorted(os.listdir(os.path.join(VERIF, "seeded"))):
+        d = os.path.join(VERIF, "seeded", sid)
+        if not os.path.isdir(d) or (only and sid not in only):
+            continue
+        meta = json.load(open(os.path.join(d, "meta.json")))
+        pids = [meta["property"]] + also.get(sid, [])
+        res = run(sid, tier, pids) or {}
+        for pid in pids:
+            r = res.get(pid, {"rc": "n/a", "wall": 0})
+            verdict = {1: "DETECTED", 0: "missed", 2: "machinery"}.get(r["rc"], "patch does not apply")
+            lines.append("| %s | %s | %s %s | %s | %ss |" % (sid, (meta.get("summary") or "")[:110].replace("|", "/"), pid, tier, verdict, r["wall"]))
+        meta.setdefault("checked", {})[tier] = {p: res.get(p, {}).get("rc") for p in pids}
+        json.dump(meta, open(os.path.join(d, "meta.json"), "w"), indent=1)
+    open(os.path.join(VERIF, "seeded", "RESULTS-%s.md" % tier), "w").write("\n".join(lines) + "\n")
+
+
 if __name__ == "__main__":
-    if sys.argv[1] == "ingest":
+    if sys.argv[1] == "sweep":
+        sweep(sys.argv[2] if len(sys.argv) > 2 else "quick", sys.argv[3:] or None)
+    elif sys.argv[1] == "ingest":
         pid = sys.argv[2]
         for w in (sys.argv[3:] or ["A", "B"]):
             if os.path.exists("/tmp/seed/out-%s/%s/meta.json" % (pid, w)):
